@@ -54,6 +54,10 @@ async fn put(fs: &FileSystem, bucket: &str, key: &str, content: &str) -> bool {
     b.set_bucket(bucket.to_owned());
     b.set_key(key.to_owned());
     b.set_body(blob(content));
+    // every fixture object carries user metadata, so that operations that move metadata files are observable
+    let mut md = Metadata::default();
+    md.insert("tag".to_owned(), format!("META-{content}"));
+    b.set_metadata(Some(md));
     match b.build() {
         Ok(i) => fs.put_object(req(i)).await.is_ok(),
         Err(_) => false,
@@ -178,6 +182,37 @@ async fn run_op(fs: &FileSystem, op: &str, key: &str) -> String {
                 let _ = fs.copy_object(req(i)).await;
             }
         }
+        "copy_cross" | "upload_part_copy_cross" => {
+            // a legitimate cross-bucket source (b2/victim, which has metadata); the destination is addressed to b1
+            if op == "copy_cross" {
+                let mut b = CopyObjectInput::builder();
+                b.set_bucket(b1());
+                b.set_key(k);
+                b.set_copy_source(src("b2", "victim"));
+                if let Ok(i) = b.build() {
+                    let _ = fs.copy_object(req(i)).await;
+                }
+            } else {
+                let mut b = CreateMultipartUploadInput::builder();
+                b.set_bucket(b1());
+                b.set_key(k.clone());
+                if let Ok(i) = b.build() {
+                    if let Ok(r) = fs.create_multipart_upload(req(i)).await {
+                        if let Some(upload_id) = r.output.upload_id {
+                            let mut b = UploadPartCopyInput::builder();
+                            b.set_bucket(b1());
+                            b.set_key(k);
+                            b.set_upload_id(upload_id);
+                            b.set_part_number(1);
+                            b.set_copy_source(src("b2", "victim"));
+                            if let Ok(i) = b.build() {
+                                let _ = fs.upload_part_copy(req(i)).await;
+                            }
+                        }
+                    }
+                }
+            }
+        }
         "list_objects_v2" => {
             let mut b = ListObjectsV2Input::builder();
             b.set_bucket(b1());
@@ -257,15 +292,17 @@ pub async fn run(workdir: &str) -> Value {
     }
     let ops = [
         "get_object", "head_object", "put_object", "put_object_dir", "delete_object", "delete_objects", "copy_object_src", "copy_object_dst",
-        "list_objects_v2", "multipart", "upload_part_copy",
+        "list_objects_v2", "multipart", "upload_part_copy", "copy_cross", "upload_part_copy_cross",
     ];
+    let cross_keys: Vec<String> = ["victim", "x", "d/inner", "mine", "dir/nested"].iter().map(|s| (*s).to_owned()).collect();
     let mut violations = vec![];
     let mut runs = 0usize;
     let mut dirty = true;
     let mut before = Snap::new();
     let mut fs = None;
     for op in ops {
-        for key in &keys {
+        let cross = op.ends_with("_cross");
+        for key in if cross { &cross_keys } else { &keys } {
             if dirty {
                 fs = Some(fixture(&base).await);
                 before = snapshot(&base);
@@ -298,7 +335,8 @@ pub async fn run(workdir: &str) -> Value {
                     }
                     // foreign bytes copied into b1
                     if let Some(bytes) = v {
-                        if before.get(p) != Some(v) {
+                        // (a cross-bucket copy legitimately brings the source's bytes into b1)
+                        if before.get(p) != Some(v) && !cross {
                             let text = String::from_utf8_lossy(bytes);
                             for marker in FOREIGN {
                                 if text.contains(marker) {
